@@ -80,7 +80,7 @@ def _leaf_item(draw, name, n_classes, hw, allow_io=True):
 
 @st.composite
 def reg_maps(draw):
-    hw = draw(st.integers(0, 4)) != 0
+    hw = draw(st.integers(0, 4)) != 4      # (Hypothesis' first examples take the smallest choices)
     n_classes = draw(st.integers(1, 2))
     classes = [_reg_class(draw, i, hw) for i in range(n_classes)]
     n_items = draw(st.integers(2, 6))
@@ -90,7 +90,7 @@ def reg_maps(draw):
     cur = 0
     # one multi-word object (reg32.Memory), mostly of power-of-two size at a word-aligned offset that is not a
     # multiple of its size (the decoder's fast path must not be taken for it), with registers / holes around it
-    mem_after = draw(st.integers(0, n_items - 1)) if draw(st.integers(0, 7)) != 0 else None
+    mem_after = draw(st.integers(0, n_items - 1)) if draw(st.integers(0, 7)) != 7 else None
     for i in range(n_items):
         gap = draw(st.sampled_from([0, 0, 1, 2, 5]))
         off = cur + 4 * gap
@@ -120,12 +120,12 @@ def reg_maps(draw):
             items.append(it)
             cur = off + 4
         if i == mem_after:
-            words = draw(st.sampled_from([2, 4, 4, 8, 2, 4, 3, 6]))
+            words = draw(st.sampled_from([4, 2, 4, 8, 2, 4, 3, 6]))
             moff = cur + 4 * draw(st.sampled_from([0, 0, 1, 2]))
-            if words & (words - 1) == 0 and moff % (4 * words) == 0 and draw(st.integers(0, 5)) != 0:
+            if words & (words - 1) == 0 and moff % (4 * words) == 0 and draw(st.integers(0, 5)) != 5:
                 moff += 4 * draw(st.integers(1, words - 1))
             items.append({"name": "mem", "what": "mem", "off": moff, "words": words,
-                          "initial": draw(st.sampled_from([0, 0xFFFFFFFF, 0xFFFFFFFF, None]))})
+                          "initial": draw(st.sampled_from([0xFFFFFFFF, 0, 0xFFFFFFFF, None]))})
             cur = moff + 4 * words
     total_words = cur // 4 + draw(st.integers(0, 3))
     bits = max(4, (4 * total_words - 1).bit_length())
@@ -169,7 +169,7 @@ def _addr(draw, spec, insts, total_bytes, prefer=None):
 
 
 @st.composite
-def schedules(draw, spec, max_steps=12):
+def schedules(draw, spec, max_steps=12, flip=False):
     insts = flatten(spec)
     total = max(i["off"] for i in insts) + 4
     multi = [i for i in insts if i["what"] == "reg" and
@@ -211,7 +211,7 @@ def schedules(draw, spec, max_steps=12):
         a = draw(st.sampled_from(targets))
         b = draw(st.sampled_from([t for t in targets if t is not a]))
         d = draw(st.integers(2, 4))
-        skew = (0, d) if draw(st.booleans()) else (d, 0)
+        skew = (0, d) if draw(st.booleans()) != flip else (d, 0)
         d1 = _data(draw)
         d2 = (~d1 & 0xFFFFFFFF) if draw(st.booleans()) else _data(draw)
         pair = [{"op": "w", "addr": a["off"], "data": d1, "strb": draw(st.sampled_from([15, 15, 3, 12, 5])),
@@ -226,5 +226,5 @@ def schedules(draw, spec, max_steps=12):
 @st.composite
 def cases(draw, n_sched=6):
     spec = draw(reg_maps())
-    scheds = [draw(schedules(spec)) for _ in range(n_sched)]
+    scheds = [draw(schedules(spec, flip=bool(i % 2))) for i in range(n_sched)]
     return {"map": spec, "schedules": scheds}
